@@ -2109,17 +2109,48 @@ impl DistributedTxCoordinator {
                     }
                 },
                 TxPhase::Prepared => {
+                    // A decision taken here is logged before it takes effect, like every
+                    // other decision: unlogged, the next restart finds the transaction
+                    // Prepared again and may decide the other way. When the record cannot
+                    // be written the transaction stays Prepared for the next pass.
                     if tx.is_timed_out() {
-                        tx.phase = TxPhase::Aborting;
-                        stats.timed_out += 1;
+                        match self.log_wal_entry(&TxWalEntry::PhaseChange {
+                            tx_id: *tx_id,
+                            from: TxPhase::Prepared,
+                            to: TxPhase::Aborting,
+                        }) {
+                            Ok(()) => {
+                                tx.phase = TxPhase::Aborting;
+                                stats.timed_out += 1;
+                            },
+                            Err(_) => stats.pending_prepare += 1,
+                        }
                     } else if tx.all_yes() {
                         // All voted yes - proceed to commit
-                        tx.phase = TxPhase::Committing;
-                        stats.pending_commit += 1;
+                        match self.log_wal_entry(&TxWalEntry::PhaseChange {
+                            tx_id: *tx_id,
+                            from: TxPhase::Prepared,
+                            to: TxPhase::Committing,
+                        }) {
+                            Ok(()) => {
+                                tx.phase = TxPhase::Committing;
+                                stats.pending_commit += 1;
+                            },
+                            Err(_) => stats.pending_prepare += 1,
+                        }
                     } else if tx.any_no() {
                         // Some voted no - abort
-                        tx.phase = TxPhase::Aborting;
-                        stats.pending_abort += 1;
+                        match self.log_wal_entry(&TxWalEntry::PhaseChange {
+                            tx_id: *tx_id,
+                            from: TxPhase::Prepared,
+                            to: TxPhase::Aborting,
+                        }) {
+                            Ok(()) => {
+                                tx.phase = TxPhase::Aborting;
+                                stats.pending_abort += 1;
+                            },
+                            Err(_) => stats.pending_prepare += 1,
+                        }
                     } else {
                         // Still waiting for more votes
                         stats.pending_prepare += 1;
